@@ -26,6 +26,52 @@ let checksum (d : n list) =
   let s = ref 0 in
   List.iteri (fun i x -> s := (!s * 31 + int_of_n x + i) mod 1000003) d; !s
 
+(* Contents longer than 600 bytes are written by the harness as (big <length> <checksum> <checksum2>), computed from
+   the bytes it read (from the repository for the object store, from CachedBlob.Data for a cache).  They enter the
+   model as the three-element stand-in [256 + length; checksum; checksum2], which no real byte string equals (its
+   first element is not a byte); the model only ever copies and the oracles only ever compare contents, so equality
+   of stand-ins is equality of length and of both checksums. *)
+let data_of_sx = function
+  | L [A "big"; ln; c1; c2] -> [n_of_int (256 + int_of_sx ln); n_of_int (int_of_sx c1); n_of_int (int_of_sx c2)]
+  | s -> List.map (fun x -> n_of_int (int_of_sx x)) (list_of_sx s)
+let is_standin = function x :: _ when int_of_n x >= 256 -> true | _ -> false
+let dlen d = match d with x :: _ when int_of_n x >= 256 -> int_of_n x - 256 | _ -> List.length d
+let dsum d = match d with x :: c1 :: _ when int_of_n x >= 256 -> int_of_n c1 | _ -> checksum d
+let show_data d = if is_standin d then Printf.sprintf "%d bytes (checksum %d)" (dlen d) (dsum d) else Printf.sprintf "%d bytes" (List.length d)
+
+(* The validator changes_ok is quadratic in the size of the trees.  It is a conjunction of conditions on single paths
+   (no path reported twice; every reported change is the expected change of its path; every path whose restricted
+   entries differ is reported), and expected f prev cur p only looks at the first entry of path p in each tree.  So
+   for any partition of the set of paths, changes_ok holds of the whole iff it holds of every class (trees and change
+   list restricted to the class).  Big steps are judged class by class, the classes being the residues of a hash
+   of the path; small steps (everything but the scale-tree stream) are judged in one piece. *)
+let bucket_limit = 600
+let path_hash (p : n list) = List.fold_left (fun a c -> (a * 131 + int_of_n c) land 0x3fffffff) 7 p
+let cpath_of c = match c.c_to, c.c_from with Some e, _ -> e.e_path | None, Some e -> e.e_path | _ -> []
+let changes_ok_big f prev cur cs =
+  let n = List.length prev + List.length cur in
+  if n <= bucket_limit then changes_ok f prev cur cs
+  else begin
+    let k = 1 + n / 64 in
+    let bp = Array.make k [] and bc = Array.make k [] and bx = Array.make k [] in
+    let put a key x = let i = path_hash key mod k in a.(i) <- x :: a.(i) in
+    List.iter (fun e -> put bp e.e_path e) (List.rev prev);
+    List.iter (fun e -> put bc e.e_path e) (List.rev cur);
+    List.iter (fun c -> put bx (cpath_of c) c) (List.rev cs);
+    let ok = ref true in
+    for i = 0 to k - 1 do if !ok && not (changes_ok f bp.(i) bc.(i) bx.(i)) then ok := false done;
+    !ok
+  end
+let tree_wfb_big t =
+  let n = List.length t in
+  if n <= bucket_limit then tree_wfb t
+  else begin
+    let k = 1 + n / 64 in
+    let b = Array.make k [] in
+    List.iter (fun e -> let i = path_hash e.e_path mod k in b.(i) <- e :: b.(i)) (List.rev t);
+    Array.for_all tree_wfb b
+  end
+
 let sub_mode = 0o160000
 
 (* at most one MISMATCH line per case and 200 per run, at most three PROPFAIL lines per case and 1500 per
@@ -58,7 +104,8 @@ let () =
       | L l -> Some (List.map ns_of_sx l)
       | _ -> failwith "mods") (args (field "mods" obs))) in
     let store = Hashtbl.create 16 in
-    List.iter (fun b -> match b with L [h; d] -> Hashtbl.replace store (int_of_sx h) (ns_of_sx d) | _ -> failwith "blob") (args (field "blobs" obs));
+    List.iter (fun b -> match b with L [h; d] -> Hashtbl.replace store (int_of_sx h) (data_of_sx d) | _ -> failwith "blob") (args (field "blobs" obs));
+    let tree_hid = Array.of_list (List.map (fun t -> match args t with thid :: _ -> int_of_sx thid | [] -> -1) (args (field "trees" obs))) in
     let parents = Array.of_list (List.map (fun cm -> List.map int_of_sx (args (field "parents" cm))) (args (field "commits" c))) in
     let commit i = { cm_hash = n_of_int chash.(i); cm_parents = List.map (fun p -> n_of_int chash.(p)) parents.(i); cm_tree = trees.(i) } in
     let table name =
@@ -76,13 +123,15 @@ let () =
     let (lt, lang_all, lrest) = table "lang" in
     List.iter (function L [p; h; b] -> Hashtbl.replace lt (atom p, int_of_sx h) (bool_of_sx b) | _ -> failwith "lang") lrest;
     let find t k what = try Hashtbl.find t k with Not_found -> failwith ("predicate table miss: " ^ what) in
+    (* the harness records a table only when the configuration makes filterDiffs consult the predicate *)
+    let fskip = List.map ns_of_sx (args (field "fskip" obs)) in
     let f = {
-      f_skip = List.map ns_of_sx (args (field "fskip" obs));
-      f_vendor = (fun p -> if p = [] then bool_of_sx v_empty else find vt (string_of_path p) "vendor");
+      f_skip = fskip;
+      f_vendor = (fun p -> if p = [] then bool_of_sx v_empty else if fskip = [] then false else find vt (string_of_path p) "vendor");
       f_name_set = name_set;
-      f_name = (fun p -> if p = [] then name_empty else find nt (string_of_path p) "name");
+      f_name = (fun p -> if p = [] then name_empty else if not name_set then false else find nt (string_of_path p) "name");
       f_lang_all = bool_of_sx lang_all;
-      f_lang = (fun p h -> if p = [] then false else find lt (string_of_path p, int_of_n h) "lang");
+      f_lang = (fun p h -> if p = [] then false else if bool_of_sx lang_all then true else find lt (string_of_path p, int_of_n h) "lang");
       f_has_blob = (fun h -> Hashtbl.mem store (int_of_n h)) } in
     let failmissing = bool_of_sx (List.hd (args (field "failmissing" obs))) in
     let benv i = { b_store = (fun h -> Hashtbl.find_opt store (int_of_n h)); b_fail_missing = failmissing; b_modules = mods.(i) } in
@@ -99,12 +148,13 @@ let () =
       if n <> List.length !bs then mismatch id (here ^ Printf.sprintf " number of branches: impl=%d model=%d" n (List.length !bs))
       else begin
         let listed = Hashtbl.create 8 in
+        let bsa = Array.of_list !bs and prev_a = Array.of_list !prev_bs in
         List.iter (fun g ->
           match args g with
           | [bi; pc; has; pt; L keys] ->
               let i = int_of_sx bi in
               Hashtbl.replace listed i ();
-              let m = List.nth !bs i in
+              let m = bsa.(i) in
               let where = Printf.sprintf "%s branch %d" here i in
               if int_of_sx pc <> int_of_n m.br_td.td_commit then
                 mismatch id (Printf.sprintf "%s previous commit: impl=%d model=%d" where (int_of_sx pc) (int_of_n m.br_td.td_commit));
@@ -116,16 +166,16 @@ let () =
                     | _ -> mismatch id (where ^ " previous tree differs"))
                | _ -> mismatch id (where ^ " previous tree presence differs"));
               let gk = List.map (function L [h; ch; ln; sm] -> (int_of_sx h, int_of_sx ch, int_of_sx ln, int_of_sx sm) | _ -> failwith "key") keys in
-              let mk = List.sort compare (List.map (fun (h, cb) -> (int_of_n h, int_of_n cb.cb_hash, List.length cb.cb_data, checksum cb.cb_data)) m.br_bc.bc_cache) in
+              let mk = List.sort compare (List.map (fun (h, cb) -> (int_of_n h, int_of_n cb.cb_hash, dlen cb.cb_data, dsum cb.cb_data)) m.br_bc.bc_cache) in
               if gk <> mk then mismatch id (where ^ " rotating blob cache differs")
           | _ -> failwith "snapshot") gl;
         (* a branch that the implementation did not touch must be untouched in the model
            (the logger flag of the model has no counterpart in the snapshot) *)
-        List.iteri (fun i m ->
+        Array.iteri (fun i m ->
           if not (Hashtbl.mem listed i) then
-            match List.nth_opt !prev_bs i with
-            | Some m' when m'.br_td = m.br_td && m'.br_bc.bc_cache = m.br_bc.bc_cache -> ()
-            | _ -> mismatch id (Printf.sprintf "%s branch %d: unchanged in the implementation, changed in the model" here i)) !bs
+            match (if i < Array.length prev_a then Some prev_a.(i) else None) with
+            | Some m' when m' == m || (m'.br_td = m.br_td && m'.br_bc.bc_cache = m.br_bc.bc_cache) -> ()
+            | _ -> mismatch id (Printf.sprintf "%s branch %d: unchanged in the implementation, changed in the model" here i)) bsa
       end;
       prev_bs := !bs in
     List.iteri (fun si (o, st) ->
@@ -180,7 +230,7 @@ let () =
                                  (match model with Ok _ -> "ok" | Err e -> "err" ^ string_of_int (int_of_n e) | Panic -> "panic")));
           if tdk = "ok" then begin
             (match List.nth !last b with
-             | Some p when phas && (match args (List.nth (args (field "trees" obs)) p) with thid :: _ -> int_of_sx thid <> pt | [] -> true) ->
+             | Some p when phas && tree_hid.(p) <> pt ->
                  propfail id (here ^ " parent-refusal: the commit was diffed against a tree that is not the tree of the branch's previous commit")
              | _ -> ());
             last := List.mapi (fun i x -> if i = b then Some ci else x) !last;
@@ -192,12 +242,12 @@ let () =
             if phas then begin
               count "diff_steps";
               let prev = (try Hashtbl.find tree_by_hid pt with Not_found -> failwith "unknown previous tree") in
-              if not (tree_wfb prev && tree_wfb cur) then count "outside_domain_tree"
+              if not (tree_wfb_big prev && tree_wfb_big cur) then count "outside_domain_tree"
               else begin
-                if not (changes_ok all_pass prev cur dt) then
+                if not (changes_ok_big all_pass prev cur dt) then
                   propfail id (here ^ " difftree: go-git's DiffTree output is not the difference of the two trees: " ^ show_changes dt);
                 if gcs <> [] then count "diff_steps_nonempty";
-                if not (changes_ok f prev cur gcs) then begin
+                if not (changes_ok_big f prev cur gcs) then begin
                   let why =
                     if not (flip_free f prev cur) then "language-flip: the language verdict of a path flips across its modification, which filterDiffs judges on one side only; "
                     else if not (empty_name_inert f) then "vendor-empty-name: enry.IsVendor accepts the empty name; "
@@ -224,18 +274,22 @@ let () =
              | "ok" ->
                  count "bc_ok";
                  let gcache = List.map (function
-                   | L [h; ch; sz; d] -> (int_of_sx h, (int_of_sx ch, int_of_sx sz, ns_of_sx d))
+                   | L [h; ch; sz; d] -> (int_of_sx h, (int_of_sx ch, int_of_sx sz, data_of_sx d))
                    | _ -> failwith "cache") (args (field "cache" st)) in
+                 let gtab = Hashtbl.create 16 in
+                 List.iter (fun (h, v) -> Hashtbl.replace gtab h v) gcache;
                  (* property: every blob referenced by a change is there with its exact bytes *)
                  List.iter (fun e ->
                    let h = int_of_n e.e_hash in
-                   match List.assoc_opt h gcache with
+                   match Hashtbl.find_opt gtab h with
                    | None -> propfail id (Printf.sprintf "%s cache-covers: hash %d of %s is not a key of the returned cache" here h (show_entry e))
                    | Some (ch, sz, d) ->
                        (match Hashtbl.find_opt store h with
                         | Some bytes ->
-                            if d <> bytes || ch <> h || sz <> List.length bytes then
-                              propfail id (Printf.sprintf "%s cache-covers: the cached blob of %s does not hold the exact bytes of the object" here (show_entry e))
+                            if is_standin bytes then count "big_blobs_checked";
+                            if d <> bytes || ch <> h || sz <> dlen bytes then
+                              propfail id (Printf.sprintf "%s cache-covers: the cached blob of %s does not hold the exact bytes of the object: the cache holds %s, declared size %d, the repository holds %s"
+                                             here (show_entry e) (show_data d) sz (show_data bytes))
                         | None ->
                             if int_of_n e.e_mode = sub_mode then begin
                               count "submodule_placeholders";
@@ -244,7 +298,7 @@ let () =
                             end)) sides;
                  (match bmodel with
                   | Ok (_, mcache) ->
-                      let mc = List.sort compare (List.map (fun (h, cb) -> (int_of_n h, (int_of_n cb.cb_hash, List.length cb.cb_data, cb.cb_data))) mcache) in
+                      let mc = List.sort compare (List.map (fun (h, cb) -> (int_of_n h, (int_of_n cb.cb_hash, dlen cb.cb_data, cb.cb_data))) mcache) in
                       if mc <> gcache then mismatch id (here ^ " returned blob cache differs")
                   | _ -> mismatch id (here ^ " BlobCache: impl=ok, model fails"))
              | "err" ->
